@@ -151,29 +151,31 @@ def classify (inStr : Bool) (ty : Int) (lv : LVal) : Tok :=
     | some k => .kw k
     | none => if 0 < ty && ty < 128 then .ch (UInt8.ofNat ty.toNat) else .bad ty
 
-/-- the tokens of a source.  `stk` = for every enclosing `\(`, the number of `(` opened and not yet
-    closed inside it; the `)` met at depth 0 closes the interpolation and the lexer continues in
-    string mode (in gojq the reduction `stringparts: stringparts tokStringQuery query ')'` does it).
-    Stops at the end of the source; a lexical error is the last token (`bad`). -/
+def Tok.isBad : Tok → Bool
+  | .bad _ => true
+  | _ => false
+
+/-- the parenthesis-depth stack after a token, and whether the token closes an interpolation
+    (`stk` = for every enclosing `\(`, the number of `(` opened and not yet closed inside it) -/
+def stepStk : Tok → List Nat → List Nat × Bool
+  | .strQuery, stk => (0 :: stk, false)
+  | .ch 40, n :: rest => ((n + 1) :: rest, false)
+  | .ch 41, 0 :: rest => (rest, true)
+  | .ch 41, (n + 1) :: rest => (n :: rest, false)
+  | _, stk => (stk, false)
+
+/-- the tokens of a source.  The `)` met at depth 0 of an interpolation closes it and the lexer
+    continues in string mode (in gojq the reduction `stringparts: stringparts tokStringQuery query
+    ')'` does it).  Stops at the end of the source; a lexical error is the last token (`bad`). -/
 def tokenize : Nat → LState → List Nat → List Tok
   | 0, _, _ => [.bad 0]
   | fuel + 1, s, stk =>
     let r := lex s
     if r.1 == eof then [] else
     let t := classify s.inString r.1 r.2.1
-    match t with
-    | .bad _ => [t]
-    | .strQuery => t :: tokenize fuel r.2.2 (0 :: stk)
-    | .ch 40 =>
-      (match stk with
-       | n :: rest => t :: tokenize fuel r.2.2 ((n + 1) :: rest)
-       | [] => t :: tokenize fuel r.2.2 [])
-    | .ch 41 =>
-      (match stk with
-       | 0 :: rest => t :: tokenize fuel { r.2.2 with inString := true } rest
-       | (n + 1) :: rest => t :: tokenize fuel r.2.2 (n :: rest)
-       | [] => t :: tokenize fuel r.2.2 [])
-    | _ => t :: tokenize fuel r.2.2 stk
+    if t.isBad then [t] else
+    let st := stepStk t stk
+    t :: tokenize fuel (if st.2 then { r.2.2 with inString := true } else r.2.2) st.1
 
 def tokensOf (src : Bytes) : List Tok := tokenize (src.length + 2) (LState.init src) []
 
